@@ -17,7 +17,10 @@ def files : List (String × List Directive) := [
   ("/hidden.html", [.hide]),
   ("/secret.private", []),
   ("/plain.html", []),
-  ("/ipscrlf.html", [.allowIps [1]])]
+  ("/ipscrlf.html", [.allowIps [1]]),
+  -- 41 addresses on the line (none of the others is a client of the harness)
+  ("/ipslong.html", [.allowIps [1]]),
+  ("/ipslongcache.html", [.allowIps [1], .cache .full])]
 
 structure St where
   store : Store := []
